@@ -157,10 +157,15 @@ type chSpec struct {
 	Prev   []string
 	Snap   string
 	IsSnap bool
-	Size   int // wanted raw size in bytes, 0 = whatever it is
+	Size   int  // wanted raw size in bytes, 0 = whatever it is
+	Approx bool // Size is a target (some exact sizes are unreachable: varint length prefixes)
 }
 
 func (e *env) rootRaw(id string, size int) *treechangeproto.RawTreeChangeWithId {
+	return e.rootRawSized(id, size, false)
+}
+
+func (e *env) rootRawSized(id string, size int, approx bool) *treechangeproto.RawTreeChangeWithId {
 	mk := func(pad int) []byte {
 		rc := &treechangeproto.RootChange{AclHeadId: e.aclHead, Identity: e.identity, ChangeType: "verif"}
 		if pad > 0 {
@@ -171,7 +176,7 @@ func (e *env) rootRaw(id string, size int) *treechangeproto.RawTreeChangeWithId 
 		b, _ := raw.MarshalVT()
 		return b
 	}
-	return &treechangeproto.RawTreeChangeWithId{RawChange: sized(mk, size), Id: id}
+	return &treechangeproto.RawTreeChangeWithId{RawChange: sized(mk, size, approx), Id: id}
 }
 
 func (e *env) raw(c chSpec) *treechangeproto.RawTreeChangeWithId {
@@ -194,11 +199,11 @@ func (e *env) raw(c chSpec) *treechangeproto.RawTreeChangeWithId {
 		b, _ := raw.MarshalVT()
 		return b
 	}
-	return &treechangeproto.RawTreeChangeWithId{RawChange: sized(mk, c.Size), Id: c.Id}
+	return &treechangeproto.RawTreeChangeWithId{RawChange: sized(mk, c.Size, c.Approx), Id: c.Id}
 }
 
 // sized pads the payload until the marshalled change has exactly `size` bytes (0 = no padding).
-func sized(mk func(pad int) []byte, size int) []byte {
+func sized(mk func(pad int) []byte, size int, approx bool) []byte {
 	b := mk(0)
 	if size == 0 {
 		return b
@@ -216,6 +221,9 @@ func sized(mk func(pad int) []byte, size int) []byte {
 		if pad < 1 {
 			pad = 1
 		}
+	}
+	if approx {
+		return b
 	}
 	panic(fmt.Sprintf("cannot reach size %d (got %d)", size, len(b)))
 }
